@@ -91,6 +91,30 @@ def _imports():
     return Atom, Conformer, Conformers
 
 
+# How the conformers of the current case are named.  Species.__eq__ compares str(species) (name, charge,
+# mult, atom labels - not geometry or energy), so conformers sharing a name are `==`: anything in the
+# code that goes through list.remove / list.index / `in` then picks the FIRST equal-looking conformer.
+# Retained conformers are always identified by a hidden tag on the OBJECT (_vtag), never by name or ==.
+NAME_MODES = ["same", "same", "same", "unique", "mod2", "mod3"]
+NAME_MODE = "same"
+
+
+def set_name_mode(mode):
+    global NAME_MODE
+    NAME_MODE = mode
+    return mode
+
+
+def conf_name(i):
+    if NAME_MODE == "unique":
+        return f"c{i}"
+    if NAME_MODE == "mod2":
+        return f"g{i % 2}"
+    if NAME_MODE == "mod3":
+        return f"g{i % 3}"
+    return None        # the constructor's default name "conf" for every conformer
+
+
 def build_confs(ens, coords=None, labels=("C", "O")):
     """Conformers with the given energies (None = no energy); coords[i] = list of xyz per atom."""
     Atom, Conformer, Conformers = _imports()
@@ -101,7 +125,9 @@ def build_confs(ens, coords=None, labels=("C", "O")):
             lab = ("C", "O")
         else:
             xyz, lab = coords[i], labels
-        c = Conformer(name=f"c{i}", atoms=[Atom(l, x=float(p[0]), y=float(p[1]), z=float(p[2])) for l, p in zip(lab, xyz)])
+        atoms = [Atom(l, x=float(p[0]), y=float(p[1]), z=float(p[2])) for l, p in zip(lab, xyz)]
+        nm = conf_name(i)
+        c = Conformer(atoms=atoms) if nm is None else Conformer(name=nm, atoms=atoms)
         if e is not None:
             c.energy = float(e)
         c._vtag = i
@@ -237,6 +263,7 @@ class Findings:
 def shrink_energy_finding(ctx, key, what, replay):
     """Delta-debug the energy list of a failing prune_on_energy case (same key must still be produced)."""
     ens, e_tol, n_sigma = replay["energies"], replay["e_tol"], replay["n_sigma"]
+    set_name_mode(replay.get("names", "same"))
 
     def collect(sub):
         tmp = Findings(ctx)
@@ -260,7 +287,8 @@ def shrink_energy_finding(ctx, key, what, replay):
 def classify_energy(ens, e_tol, n_sigma, retained, fnd, source):
     """Evaluate the sentences on one implementation result and record findings."""
     s = energy_sentences(ens, e_tol, n_sigma, retained)
-    rep = {"kind": "energy", "energies": ens, "e_tol": e_tol, "n_sigma": n_sigma, "retained": retained, "source": source}
+    rep = {"kind": "energy", "energies": ens, "e_tol": e_tol, "n_sigma": n_sigma, "retained": retained, "source": source,
+           "names": NAME_MODE}
     hit = []
     if "raises" in s:
         key = f"Conformers.prune_on_energy|raises-{s['raises'].split(':')[-1]}"
@@ -418,6 +446,8 @@ def witnesses():
         ("Props.energy_prune_nonempty_nsigma_lt1_refuted", [0.0, 1.0], 0.01, 0.5),
         ("Props.energy_prune_idempotent_refuted", [0.0, 0.01, 0.02, 0.03, 0.04, 3.0, 10.0], 0.001, 2.0),
         ("regression: crash of the stale index refresh (d7bdc37)", [0.0, 0.0, 10.0, None], 0.5, 1.0),
+        ("identically named conformers: the duplicate at idx is the one that must go", [0.0, 0.01, 0.01, 0.02], 0.001, 5),
+        ("identically named conformers with missing energies", [None, -1.0, -0.5, None, -0.5, -0.2], 0.001, 5),
         ("regression: emptied for n_sigma>=1 (non-outlier deleted for being near a later-deleted outlier)", [0.0, 0.9, 1.8], 1.0, 1.0),
         ("regression: lowest lost through a chain of near conformers", [1.8, 0.9, 0.0, 5.0], 1.0, 5.0),
         ("regression: lowest lost with the DEFAULT thresholds (1 kJ/mol, 5 sigma), energies in Ha", [0.0006, 0.0003, 0.0, 0.01], "default", 5),
@@ -437,6 +467,7 @@ def stream_energy(ctx, cases, fnd, full):
     skipped = 0
     # replay the refuted witnesses on the implementation first
     for name, ens, et, ns in witnesses():
+        set_name_mode("same")
         if et == "default":
             et_f = default_e_tol()
             got = run_method(build_confs(ens), lambda cs: cs.prune_on_energy(n_sigma=ns))
@@ -450,6 +481,7 @@ def stream_energy(ctx, cases, fnd, full):
     for _ in range(ncase):
         kind, ens = gen_energies(rng, nmax)
         e_tol, n_sigma = rng.choice(E_TOLS), rng.choice(N_SIGMAS)
+        ctx.hist("energy-prune", "names=" + set_name_mode(rng.choice(NAME_MODES)))
         if not energy_margin_ok(ens, n_sigma):
             skipped += 1
             continue
@@ -462,8 +494,8 @@ def stream_energy(ctx, cases, fnd, full):
                   f"n_sigma={'<0' if n_sigma < 0 else '<1' if n_sigma < 1 else '>=1'}"):
             ctx.hist("energy-prune", h)
         cases.add("energy-prune", f"check_energy {coq_ens(ens)} {qc(e_tol)} {qc(n_sigma)} {coq_expect(got)}",
-                  {"kind": "energy", "energies": ens, "e_tol": e_tol, "n_sigma": n_sigma, "impl": got},
-                  (tuple(ens), e_tol, n_sigma), nontrivial=(res_class != "unchanged"))
+                  {"kind": "energy", "energies": ens, "e_tol": e_tol, "n_sigma": n_sigma, "impl": got, "names": NAME_MODE},
+                  (tuple(ens), e_tol, n_sigma, NAME_MODE), nontrivial=(res_class != "unchanged"))
     ctx.cov["streams"]["energy-prune"]["margin_skipped"] = skipped
 
 
@@ -500,6 +532,7 @@ def stream_rmsd(ctx, cases, fnd, full):
             geoms[rng.randrange(n)] = geoms[rng.randrange(n)]
         tol = rng.choice(R_TOLS)
         tolv = rmsd_tol_value(tol)
+        set_name_mode(rng.choice(NAME_MODES))
         cs = build_confs([None] * n, geoms, labels)
         D = rmsd_matrix(cs)
         if not rmsd_margin_ok(D, tolv):
@@ -507,7 +540,7 @@ def stream_rmsd(ctx, cases, fnd, full):
             continue
         arg = tol if (tol is None or rng.random() < 0.6) else Distance(tol, "ang")
         got = run_method(cs, lambda c: c.prune_on_rmsd(rmsd_tol=arg))
-        rep = {"kind": "rmsd", "labels": list(labels), "geoms": geoms, "rmsd_tol": tol, "retained": got}
+        rep = {"kind": "rmsd", "labels": list(labels), "geoms": geoms, "rmsd_tol": tol, "retained": got, "names": NAME_MODE}
         classify_rmsd(n, D, tol, got, fnd, rep)
         if isinstance(got, list):
             cs2 = build_confs([None] * len(got), [geoms[i] for i in got], labels)
@@ -524,8 +557,8 @@ def stream_rmsd(ctx, cases, fnd, full):
 
 
 # water-like parent for prune_diff_graph; variants keep or break the O-H bonds
-def water_geom(rng):
-    v = rng.choice(["same", "same", "jiggle", "h-off", "both-off", "h-far"])
+def water_geom(rng, intact=False):
+    v = rng.choice(["same", "jiggle"] if intact else ["same", "same", "jiggle", "h-off", "both-off", "h-far"])
     O, H1, H2 = (0.0, 0.0, 0.0), (0.96, 0.0, 0.0), (-0.24, 0.93, 0.0)
     if v == "jiggle":
         H1 = (0.96 + rng.choice([-0.05, 0.05]), 0.02, 0.0)
@@ -546,6 +579,7 @@ def stream_listops(ctx, cases, fnd, full):
     nmax = 40 if full else 12
     for _ in range(900 if full else 160):
         kind, ens = gen_energies(rng, nmax)
+        set_name_mode(rng.choice(NAME_MODES))
         # remove_no_energy
         got = run_method(build_confs(ens), lambda cs: cs.remove_no_energy())
         want = [i for i, e in enumerate(ens) if e is not None]
@@ -589,6 +623,7 @@ def stream_listops(ctx, cases, fnd, full):
 
     for _ in range(150 if full else 30):
         n = rng.randint(0, 8 if full else 6)
+        set_name_mode(rng.choice(NAME_MODES))
         vs, geoms = zip(*[water_geom(rng) for _ in range(n)]) if n else ((), ())
         cs = build_confs([None] * n, list(geoms), ("O", "H", "H"))
         isos = [iso_bit(g) for g in geoms]
@@ -602,6 +637,68 @@ def stream_listops(ctx, cases, fnd, full):
             ctx.hist("list-ops", f"graph-variant={v}")
         cases.add("list-ops", f"check_diff_graph {coq_list([coq_bool(b) for b in isos])} {coq_expect(got)}", rep,
                   ("dg", tuple(vs)), nontrivial=(not all(isos)))
+    stream_graph_steps(ctx, cases, fnd, full, parent, iso_bit)
+
+
+def stream_graph_steps(ctx, cases, fnd, full, parent, iso_bit):
+    """prune_diff_graph must judge the CURRENT geometry: graphs are perceived/cached first (graph access, bond
+    matrix, or a first prune), then some geometries change (coordinates / atoms setter) so that bonds break or
+    form, then the set is pruned again.  Oracle: fresh perception of the final geometry on a new object."""
+    rng = ctx.rng
+    from autode.atoms import Atom, Atoms
+    labels = ("O", "H", "H")
+    for _ in range(120 if full else 30):
+        n = rng.randint(1, 6)
+        set_name_mode(rng.choice(NAME_MODES))
+        start = [water_geom(rng, intact=rng.random() < 0.8) for _ in range(n)]
+        geoms = [g for _, g in start]
+        cs = build_confs([None] * n, geoms, labels)
+        how = rng.choice(["graph-access", "bond-matrix", "first-prune", "first-prune"])
+        rep = {"kind": "diff_graph_steps", "start": [v for v, _ in start], "cached_by": how, "names": NAME_MODE}
+        try:
+            if how == "graph-access":
+                for c in cs:
+                    assert c.graph is not None
+            elif how == "bond-matrix":
+                for c in cs:
+                    c.bond_matrix  # noqa
+            else:
+                first = run_method(cs, lambda c: c.prune_diff_graph(parent.graph))
+                want1 = [i for i in range(n) if iso_bit(geoms[i])]
+                if first != want1:
+                    fnd.add("Conformers.prune_diff_graph|wrong-set", n, f"first prune_diff_graph retained {first}; conformers isomorphic "
+                            f"to the parent are {want1} (variants {rep['start']})", rep)
+            final, changes = list(geoms), []
+            for c in list(cs):
+                i = c._vtag
+                if rng.random() < 0.6:
+                    v, g = water_geom(rng)
+                    setter = rng.choice(["coordinates", "atoms"])
+                    if setter == "coordinates":
+                        c.coordinates = np.array(g, dtype=float)
+                    else:
+                        c.atoms = Atoms([Atom(l, x=p[0], y=p[1], z=p[2]) for l, p in zip(labels, g)])
+                    final[i] = g
+                    changes.append([i, v, setter])
+            present = [c._vtag for c in cs]
+            got = run_method(cs, lambda c: c.prune_diff_graph(parent.graph))
+        except Exception as e:  # noqa
+            fnd.add(f"Conformers.prune_diff_graph|raises-{type(e).__name__}", n, f"graph caching / geometry change / prune raised "
+                    f"{type(e).__name__}: {e}", rep)
+            continue
+        isos = [iso_bit(final[i]) for i in present]
+        want = [i for i, b in zip(present, isos) if b]
+        rep.update(changes=changes, present_before_second_prune=present, isomorphic_now=isos, retained=got)
+        if got != want:
+            fnd.add("Conformers.prune_diff_graph|stale-graph-after-geometry-change", n,
+                    f"after the graphs were perceived ({how}) and geometries changed ({changes}), prune_diff_graph retained {got}; "
+                    f"a fresh perception of the current geometries says only {want} have the parent's graph", rep)
+        ctx.hist("list-ops", f"graph-steps={how}")
+        # the model sees the conformers present before the second prune, renumbered 0..k-1
+        pos = {t: k for k, t in enumerate(present)}
+        exp = coq_expect([pos[t] for t in got] if isinstance(got, list) and all(t in pos for t in got) else "crash:renumber")
+        cases.add("list-ops", f"check_diff_graph {coq_list([coq_bool(b) for b in isos])} {exp}", rep,
+                  ("dgs", tuple(rep["start"]), how, tuple(map(tuple, changes))), nontrivial=bool(changes))
 
 
 def stream_prune(ctx, cases, fnd, full):
@@ -615,6 +712,7 @@ def stream_prune(ctx, cases, fnd, full):
         labels = rng.choice(RMSD_TEMPLATES[:3])
         geoms = gen_geoms(rng, n, labels)
         e_tol, n_sigma, tol, rm = rng.choice(E_TOLS), rng.choice(N_SIGMAS), rng.choice(R_TOLS), rng.random() < 0.5
+        set_name_mode(rng.choice(NAME_MODES))
         tolv = rmsd_tol_value(tol)
         cs = build_confs(ens, geoms, labels)
         D = rmsd_matrix(cs)
@@ -624,7 +722,7 @@ def stream_prune(ctx, cases, fnd, full):
             continue
         got = run_method(cs, lambda c: c.prune(e_tol=e_tol, rmsd_tol=tol, n_sigma=n_sigma, remove_no_energy=rm))
         rep = {"kind": "prune", "energies": ens, "labels": list(labels), "geoms": geoms, "e_tol": e_tol, "n_sigma": n_sigma,
-               "rmsd_tol": tol, "remove_no_energy": rm, "retained": got}
+               "rmsd_tol": tol, "remove_no_energy": rm, "retained": got, "names": NAME_MODE}
         if isinstance(got, str) and not (got == "noconf" and rm and ens and all(e is None for e in ens)):
             fnd.add(f"Conformers.prune|raises-{got.split(':')[-1]}", n, f"prune(...) raised {got}", rep)
         if isinstance(got, list):
@@ -685,7 +783,19 @@ def stream_select(ctx, cases, fnd, full):
                     make_graph(c)
                     iso_cache[flags] = bool(is_isomorphic(c.graph, mol.graph, ignore_active_bonds=True))
                 isos.append(iso_cache[flags])
-            prepared = build_confs(ens, geoms, labels)
+            set_name_mode(rng.choice(NAME_MODES))
+            precached = rng.random() < 0.5
+            if precached:
+                # graphs perceived on intact geometries first, then the conformers take their final coordinates
+                # (a geometry change resets a species' energies since fix 2fc12a5, so energies are set afterwards)
+                prepared = build_confs([None] * n, [ccon_geom(p, False, False) for p in phis], labels)
+                for c, g, e in zip(prepared, geoms, ens):
+                    assert c.graph is not None
+                    c.coordinates = np.array(g, dtype=float)
+                    if e is not None:
+                        c.energy = float(e)
+            else:
+                prepared = build_confs(ens, geoms, labels)
             D = rmsd_matrix(prepared)
             if not energy_margin_ok(ens, n_sigma) or not rmsd_margin_ok(D, tolv):
                 skipped += 1
@@ -718,7 +828,7 @@ def stream_select(ctx, cases, fnd, full):
                         {"kind": "select", "energies": ens, "phis": phis, "offs": offs, "allow": allow})
                 retained, sel, exp_sel, exp = "crash:" + type(e).__name__, "crash", "ENoSuitable", "ECrash"
             rep = {"kind": "select", "energies": ens, "phis": phis, "offs": offs, "allow": allow, "isomorphic": isos,
-                   "retained": retained, "selected": sel}
+                   "retained": retained, "selected": sel, "names": NAME_MODE, "graphs_cached_before_final_geometry": precached}
             if isinstance(sel, int):
                 have = [ens[i] for i in retained if ens[i] is not None]
                 if ens[sel] is None or ens[sel] != min(have):
@@ -977,6 +1087,7 @@ def replay(ctx, obj):
     rep = obj.get("replay", {})
     kind = rep.get("kind")
     print("stored:", obj.get("what"))
+    set_name_mode(rep.get("names", "same"))
     if kind == "energy":
         ens, e_tol, n_sigma = rep["energies"], rep["e_tol"], rep["n_sigma"]
         got = impl_energy(ens, e_tol, n_sigma)
